@@ -272,6 +272,10 @@ func (me *modelEnv) goExpr(name string, v Val, t types.Type) (string, bool) {
 			}
 		}
 		me.desc = append(me.desc, fmt.Sprintf("%s=%s", name, n))
+		if nt, ok := t.(*types.Named); ok && nt.Obj().Pkg() != nil && nt.Obj().Pkg() != me.pkg && !nt.Obj().Exported() {
+			// unexported integer type of another package: an untyped constant is assignable to it
+			return n.String(), true
+		}
 		return fmt.Sprintf("%s(%s)", me.qual(t), n), true
 	case StructV:
 		st := x.Typ.Underlying().(*types.Struct)
